@@ -206,8 +206,7 @@ class C02(Check):
                                                 row_group_size=min(max(rgs, 1), max(n, 1)))
             box = None
             if source == "random":
-                lo, hi = np.rad2deg(ra_rad.min()), np.rad2deg(ra_rad.max())
-                box = dict(ra_min=float(min(lo, 10.0)), ra_max=float(max(hi, 20.0)), dec_min=-10.0, dec_max=10.0,
+                box = dict(ra_min=10.0, ra_max=20.0, dec_min=-10.0, dec_max=10.0,
                            weights=cols.get("w"), redshifts=cols.get("z"), seed=int(case["seed"] % 1000))
                 centres = cats.layout_centres(np.random.default_rng(5), 3, np.deg2rad(3.0), "equator")
                 c_ra, c_dec = gen.xyz_to_radec(centres)
